@@ -325,6 +325,9 @@ impl VfsEntry {
     #[verifier::external_body] pub fn mode(&self) -> (r: u32) ensures r == self.xmode() { unimplemented!() }
     #[verifier::external_body] pub fn alt(&self) -> (r: &PathBuf) ensures r.comps() == self.xalt() { unimplemented!() }
     // Entry default methods: link && dir / link && file
+    #[verifier::external_body] pub fn is_exec(&self) -> (r: bool) ensures r == (self.xmode() & 0o111 != 0) { unimplemented!() }
+    #[verifier::external_body] pub fn is_readonly(&self) -> (r: bool) ensures r == (self.xmode() & 0o222 == 0) { unimplemented!() }
+    #[verifier::external_body] pub fn path_buf(&self) -> (r: PathBuf) ensures r@ == self.xpath(), r.abs_clean(), r.comps() == abs_comps(r@) { unimplemented!() }
     #[verifier::external_body] pub fn is_symlink_dir(&self) -> (r: bool) ensures r == (self.xlink() && self.xdir()) { unimplemented!() }
     #[verifier::external_body] pub fn is_symlink_file(&self) -> (r: bool) ensures r == (self.xlink() && self.xfile()) { unimplemented!() }
 }
@@ -350,7 +353,6 @@ impl StdfsEntry {
     { unimplemented!() }
     #[verifier::external_body] pub fn mode(&self) -> (r: u32) ensures r == self.mode { unimplemented!() }
 }
-pub open spec fn in_sub(a: PathV, p: PathV) -> bool { a.len() <= p.len() && p.take(a.len() as int) == a }
 impl PathBuf {
     pub uninterp spec fn rel_names(&self) -> Seq<Name>;
     pub uninterp spec fn is_rel(&self) -> bool;
